@@ -73,14 +73,17 @@ theorem expireWith_again {s s' : St} {now : Nat} {r : DelayQ × DelayQ.PollRes} 
     remSum s' + 1 ≤ remSum s := by
   unfold expireWith at h
   split at h
-  · split at h
+  · rename_i q e
+    split at h
     · rename_i en hf
       split at h
       · rename_i hne
         unfold rearm at h
         obtain ⟨key, hk⟩ := rearmWith_again h
         unfold remSum; rw [hk]
-        exact sum_rearm_lt hf (by simpa using hne) (clampTimeout_pos (by simpa using hne))
+        have hrest : en.remainder - (now - e.whenMs * nsPerMs) ≠ 0 := by simpa using hne
+        have := clampTimeout_pos hrest
+        exact sum_rearm_lt hf (by omega) (by omega)
       · cases h
     · cases h
   · cases h
